@@ -283,9 +283,14 @@ CLAIMED["C09"] = dict(
          "answers with any noise in between complete the handshake: CONNECTED, initialised, heartbeat started, nothing raised (handshake_completes); the ACs and zones "
          "exposed are exactly those described, each zone on the right AC - AT4 bitmap, single-AC fallback and start/count ranges, AT5 ranges and the zero-zone echo "
          "addressed to the client (exposed_zones, exposed_air_conditioners, entities_as_described, zero_zones_echo); without the last answer init() returns False "
-         "exactly at the deadline, initialised stays false, nothing raises (init_times_out / silence). Direct judgement of the REAL objects: installations 1..4 ACs x "
+         "exactly at the deadline, initialised stays false, nothing raises (init_times_out / silence). Props/C09At4b: one end-to-end statement from a fresh object "
+         "for every consistent installation and arbitrary noise (handshake_end_to_end_at4) over a proved reachable-state invariant. Props/C09Bytes (cross-layer): "
+         "for EVERY segmentation of the console's byte stream - the six answer frames with unknown / duplicate / premature / foreign-addressed frames in between - "
+         "the receive-path model delivers exactly the frames sent and the API model completes the handshake with the described object model "
+         "(stream_delivers_*, handshake_from_bytes_at4/at5, payload-level variants): C13 + C03 + C09 composed. Direct judgement of the REAL objects: installations 1..4 ACs x "
          "0..16 zones in every zone-to-AC description, ten kinds of interleaved frames at every position, silence after 0..5 answers, connect delays below / above "
-         "5 s: request order and placement, result and its instant, and the exposed entities against the vendor reading of the names and ability payloads.",
+         "5 s: request order and placement, result and its instant, and the exposed entities against the vendor reading of the names and ability payloads; full stack (real socket): connect latency below / above 5 s, refusing "
+         "network, answers cut into random segments with interleaved frames, and 48 sessions in one process.",
     design_ref="DESIGN.md section 7, C09 and section 12.4",
     technique="Lean 4 proof (handshake state machine of the API models: order, completion under noise, exposure, timeout) + op-for-op differential + independent judgement of the real objects",
     note=API_NOTE + "Consistent consoles only: an AirTouch 4 console with zero groups (its empty names answer is indistinguishable from the request) and a console whose ability record names an "
@@ -300,7 +305,9 @@ CLAIMED["C14"] = dict(
          "(no_poll_loop: every output of any `adv` is an init result, a heartbeat request or a heartbeat reset). Direct judgement of the REAL objects: histories with "
          "up to three outages of 0..9000 ticks at any moment, console changes while disconnected, refresh answered in either order / partly / not at all with noise, "
          "silences up to 12100 ticks: both requests in the reconnecting op, views equal to a client freshly initialised against the console's present state, no "
-         "notification for unchanged data, AT4 polls in exactly the ops containing t + 2400k.",
+         "notification for unchanged data, AT4 polls in exactly the ops containing t + 2400k; shutdown + re-init histories; full stack with a console that has "
+         "memory (it answers AC status and error-information requests from its current state): the AC error changes during the outage and the client must end "
+         "with the new code and ITS description.",
     design_ref="DESIGN.md section 7, C14 and section 12.4",
     technique="Lean 4 proof (refresh on reconnection, silence-poll timing in closed form, silence on unchanged data over the API models) + op-for-op differential + independent judgement of the real objects",
     note=API_NOTE + "The closed-form poll count assumes no orphaned poll task (O12: only after repeated init() without shutdown()). After an outage the phase of the AT4 poll is not prescribed by the "
